@@ -105,7 +105,7 @@ pub fn gen_history(rng: &mut Rng, len: usize) -> Vec<AOp> {
         h.push(match rng.below(16) {
             0 | 1 | 2 => AOp::Send { t: rng.below(3) as usize, class: if rng.below(5) == 0 { rng.range(1, 3) as u8 } else { 0 }, sealed: rng.below(3) as u8, to: rng.below(4) as usize },
             3 | 4 | 5 | 6 | 7 => AOp::PollAt(match rng.below(6) { 0 => PollWhen::Now, 1 => PollWhen::Early, 2 | 3 => PollWhen::Exact, 4 => PollWhen::Late(rng.range(1, 5000)), _ => PollWhen::Far }),
-            8 | 9 | 10 => AOp::Handle { kind: rng.below(9) as u8, t: rng.below(3) as usize, from: rng.below(4) as usize },
+            8 | 9 | 10 => AOp::Handle { kind: rng.below(11) as u8, t: rng.below(3) as usize, from: rng.below(4) as usize },
             11 => AOp::Cancel(rng.below(3) as usize),
             12 => AOp::CancelRetrans(rng.below(3) as usize),
             13 | 14 => AOp::Configure { t: rng.below(3) as usize, rto: *rng.pick(&[1u64, 100, 500, 1000, 60000, 7]), n: rng.below(9) as u32, last: *rng.pick(&[0u64, 1, 300, 8000, 60000]) },
@@ -129,7 +129,8 @@ fn build_request(t: u128, class: u8, sealed: u8) -> (MessageBuilder<'static>, bo
 /// response bytes of the given kind for transaction t
 fn build_incoming(kind: u8, t: u128) -> Vec<u8> {
     // kinds: 0 valid SHA-1 under remote-key, 1 valid SHA-256 under remote-key, 2 signed with other-key, 3 unsigned success, 4 corrupted MAC,
-    //        5 unknown transaction id (unsigned), 6 incoming request, 7 indication, 8 error response signed with remote-key + fingerprint
+    //        5 unknown transaction id (unsigned), 6 incoming request, 7 indication, 8 error response signed with remote-key + fingerprint,
+    //        9 response with a MESSAGE-INTEGRITY of illegal length (16), 10 response with a MESSAGE-INTEGRITY-SHA256 of illegal length (12)
     let (class, tid) = match kind { 5 => (2u8, t ^ 0x5555), 6 => (0, t), 7 => (1, t), 8 => (3, t), _ => (2, t) };
     let mut m = refmsg::encode(class, 1, tid, &[(0x8022, b"peer".to_vec())]);
     match kind {
@@ -138,6 +139,8 @@ fn build_incoming(kind: u8, t: u128) -> Vec<u8> {
         2 => refmsg::add_integrity(&mut m, &key_short(KEYS[1]), false, 20),
         4 => { refmsg::add_integrity(&mut m, &key_short(KEYS[0]), false, 20); let l = m.len(); m[l - 3] ^= 0x40; }
         8 => { refmsg::add_integrity(&mut m, &key_short(KEYS[0]), true, 16); refmsg::add_fingerprint(&mut m); }
+        9 => crate::msgcheck::append_attr(&mut m, refmsg::MI, &[7u8; 16]),
+        10 => crate::msgcheck::append_attr(&mut m, refmsg::MI256, &[7u8; 12]),
         _ => {}
     }
     m
@@ -307,6 +310,11 @@ fn agent_mode(name: &str, rule: &str, tier: &str, seed: u64, prefixes: &[&str], 
         let wit = format!("{}:history:{}:{}:{}:{}", name, seed, i, len, if transport == TransportType::Tcp { "tcp" } else { "udp" });
         for (k, e) in errs {
             if prefixes.iter().any(|p| k.starts_with(p)) { rep.violate(&k, format!("{} | history {:?}", e, &h[..h.len().min(40)]), wit.clone()); }
+            else if shift_check && k.starts_with("C06:") {
+                // the abstract agent gives every transaction a schedule that depends only on its own send / configure instants:
+                // a timing mismatch means instants of other calls leaked into this transaction's schedule (last clause of C20)
+                rep.violate("C20:schedule-depends-on-other-calls", format!("{} | history {:?}", e, &h[..h.len().min(40)]), wit.clone());
+            }
         }
         if shift_check && i % 4 == 0 {
             // C20: same history, every instant shifted, in another agent instance on another thread alongside unrelated agents
@@ -380,9 +388,10 @@ fn configure_grid(rep: &mut Report, tier: &str) {
             let mut sends = vec![0u64];
             let mut now = 0u64;
             let mut end = None;
+            let mut waits: Vec<u64> = vec![];
             for _ in 0..40 {
                 match agent.poll(base + Duration::from_millis(now)) {
-                    StunAgentPollRet::WaitUntil(w) => { let w = w.duration_since(base).as_millis() as u64; if w <= now { break; } now = w; }
+                    StunAgentPollRet::WaitUntil(w) => { let w = w.duration_since(base).as_millis() as u64; waits.push(w); if w <= now { break; } now = w; }
                     StunAgentPollRet::SendData(_) => sends.push(now),
                     StunAgentPollRet::TransactionTimedOut(_) => { end = Some(now); break; }
                     StunAgentPollRet::TransactionCancelled(_) => break,
@@ -394,6 +403,15 @@ fn configure_grid(rep: &mut Report, tier: &str) {
             if transport == TransportType::Udp { for k in 0..n { t += rto << k; want.push(t); } wend = t + last; } else { wend = last + (0..n).map(|k| rto << k).sum::<u64>(); }
             rep.evaluations += 1;
             rep.distinct.insert(fnv(format!("{:?}{}{}{}", transport, rto, n, last).as_bytes()));
+            // every WaitUntil answered on the way is exactly the next service instant (the next transmission or the timeout)
+            let mut expect_waits: Vec<u64> = want[1..].to_vec();
+            expect_waits.push(wend);
+            expect_waits.dedup();
+            let mut w2 = waits.clone();
+            w2.dedup();
+            let expect_nonzero: Vec<u64> = expect_waits.iter().cloned().filter(|&x| x > 0).collect();
+            let w2nz: Vec<u64> = w2.iter().cloned().filter(|&x| x > 0).collect();
+            if w2nz != { let mut e = expect_nonzero.clone(); e.dedup(); e } { rep.violate("C06:wait-not-earliest", format!("{:?} rto {} ms x {} retransmits, last {} ms: poll answered WaitUntil at {:?} ms, the service instants are {:?}", transport, rto, n, last, w2, expect_waits), format!("c06:configure:{:?}:{}:{}:{}", transport, rto, n, last)); }
             if sends != want || end != Some(wend) { rep.violate("C06:configured-schedule", format!("{:?} rto {} ms x {} retransmits, last {} ms: transmissions at {:?}, end {:?}; want {:?}, {}", transport, rto, n, last, sends, end, want, wend), format!("c06:configure:{:?}:{}:{}:{}", transport, rto, n, last)); }
         } } }
     }
